@@ -304,4 +304,78 @@ theorem wellFormed_sound (g : Graph) (h : g.wellFormed = true) : WF g := by
     one_net := checkObjects_sound g hobj
     clone_sources := checkClones_sound g hcl }
 
+
+/-! ## bridging (C09) -/
+
+/-- Equivalent tests of different workers are linked to each other symmetrically and share their visit
+bookkeeping; nobody else shares it. -/
+structure BridgesOK (g : Graph) : Prop where
+  /-- a bridge is recorded on both of its ends -/
+  symmetric : ∀ a b, (a, b) ∈ g.bridged → (b, a) ∈ g.bridged
+  /-- bridged nodes are two different composite nodes of one class, of different workers -/
+  equivalent : ∀ a b, (a, b) ∈ g.bridged → ∃ na nb, g.nodes[a]? = some na ∧ g.nodes[b]? = some nb ∧
+      a ≠ b ∧ na.flat = false ∧ nb.flat = false ∧ na.cls = nb.cls ∧ na.worker ≠ nb.worker
+  /-- bridged nodes reference the very same four register objects -/
+  shared : ∀ a b, (a, b) ∈ g.bridged → g.regsOf a = g.regsOf b ∧ (g.regsOf a).length = 4
+  /-- every two composite nodes of one class and different workers are bridged -/
+  complete : ∀ i j a b, g.nodes[i]? = some a → g.nodes[j]? = some b → i ≠ j → a.flat = false → b.flat = false →
+      a.cls = b.cls → a.worker ≠ b.worker → (i, j) ∈ g.bridged
+  /-- a register object is referenced only within one class -/
+  exclusive : ∀ i j a b, g.nodes[i]? = some a → g.nodes[j]? = some b → i ≠ j → a.flat = false → b.flat = false →
+      (∃ r, r ∈ g.regsOf i ∧ r ∈ g.regsOf j) → a.cls = b.cls
+
+/-- consecutive members of the list are bridged -/
+def Graph.BridgeChain (g : Graph) : List Nat → Prop
+  | a :: b :: rest => (a, b) ∈ g.bridged ∧ g.BridgeChain (b :: rest)
+  | _ => True
+
+theorem checkBridgePairs_sound (g : Graph) (h : g.checkBridgePairs = true) (a b : Nat)
+    (hab : (a, b) ∈ g.bridged) :
+    (b, a) ∈ g.bridged ∧ (∃ na nb, g.nodes[a]? = some na ∧ g.nodes[b]? = some nb ∧
+      a ≠ b ∧ na.flat = false ∧ nb.flat = false ∧ na.cls = nb.cls ∧ na.worker ≠ nb.worker) ∧
+    g.regsOf a = g.regsOf b ∧ (g.regsOf a).length = 4 := by
+  simp only [Graph.checkBridgePairs, List.all_eq_true] at h
+  have := h (a, b) hab
+  simp only at this
+  split at this
+  · rename_i na nb hna hnb
+    simp only [Bool.and_eq_true, bne_iff_ne, ne_eq, Bool.not_eq_true', beq_iff_eq, Graph.isBridged,
+      List.contains_eq_mem, decide_eq_true_eq] at this
+    obtain ⟨⟨⟨⟨⟨⟨⟨h1, h2⟩, h3⟩, h4⟩, h5⟩, h6⟩, h7⟩, h8⟩ := this
+    exact ⟨h6, ⟨na, nb, hna, hnb, h1, h2, h3, h4, h5⟩, h7, h8⟩
+  · exact absurd this (by simp)
+
+theorem checkBridgeClasses_sound (g : Graph) (h : g.checkBridgeClasses = true) (i j : Nat) (a b : Node)
+    (ha : g.nodes[i]? = some a) (hb : g.nodes[j]? = some b) (hij : i ≠ j) (haf : a.flat = false)
+    (hbf : b.flat = false) :
+    (a.cls = b.cls → a.worker ≠ b.worker → (i, j) ∈ g.bridged) ∧
+    ((∃ r, r ∈ g.regsOf i ∧ r ∈ g.regsOf j) → a.cls = b.cls) := by
+  have h1 := allIdx_get _ g.nodes 0 h i a ha
+  simp only [Nat.zero_add] at h1
+  have h2 := allIdx_get _ g.nodes 0 h1 j b hb
+  simp only [Nat.zero_add, haf, hbf, Bool.or_false, Bool.or_eq_true, beq_iff_eq, hij, false_or,
+    Bool.and_eq_true, Bool.not_eq_true', Bool.and_eq_false_iff, bne_eq_false_iff_eq, beq_eq_false_iff_ne,
+    ne_eq, Graph.isBridged, List.contains_eq_mem, decide_eq_true_eq, List.any_eq_false] at h2
+  constructor
+  · intro hc hw
+    rcases h2.1 with (h3 | h3) | h3
+    · exact absurd hc h3
+    · exact absurd h3 hw
+    · exact h3
+  · rintro ⟨r, hr1, hr2⟩
+    rcases h2.2 with h3 | h3
+    · exact absurd hr2 (by simpa using h3 r hr1)
+    · exact h3
+
+theorem checkBridges_sound (g : Graph) (h : g.checkBridges = true) : BridgesOK g := by
+  simp only [Graph.checkBridges, Bool.and_eq_true] at h
+  exact {
+    symmetric := fun a b hab => (checkBridgePairs_sound g h.1 a b hab).1
+    equivalent := fun a b hab => (checkBridgePairs_sound g h.1 a b hab).2.1
+    shared := fun a b hab => (checkBridgePairs_sound g h.1 a b hab).2.2
+    complete := fun i j a b ha hb hij haf hbf hc hw =>
+      (checkBridgeClasses_sound g h.2 i j a b ha hb hij haf hbf).1 hc hw
+    exclusive := fun i j a b ha hb hij haf hbf hr =>
+      (checkBridgeClasses_sound g h.2 i j a b ha hb hij haf hbf).2 hr }
+
 end I2N.Graph
